@@ -311,7 +311,10 @@ func (s *Sim) deliverSQL(c *call, flt string) {
 	case "blackhole":
 		s.trace("SQL-BLACKHOLE %s %s", c.key, c.query)
 		s.stats.Faults["net_blackhole_sql"]++
-		return // nothing comes back; caller's deadline decides
+		// nothing comes back, the caller's deadline decides; the monitors see an attempt
+		ev.Fault, ev.Err = "blackhole", "hang"
+		s.mon.onSQL(ev)
+		return
 	case "reject":
 		s.stats.Faults["net_reject_sql"]++
 		fail(errRefused())
